@@ -644,7 +644,7 @@ theorem cell_update_source_eq_model_mod_ties (w : Nat → Nat → Int) (T : GenS
     (tsL tsU : RbV.Model.PairwiseFill.Tb) (hd : GenSrcPwCustom.Dims a m n) (hx : x.length = m) (hi : 1 ≤ i) (him : i ≤ m)
     (hj : 1 ≤ j) (hjn : j ≤ n) (hreset : i ≠ m → (a.S.getD (j % 2) []).getD i 0 = minScore)
     (hL : GenSrcPwCustom.SIs a (i - 1) j tsL) (hU : GenSrcPwCustom.SIs a i (j - 1) tsU) :
-    RbV.Gen.SrcPwCustom.custom_for5 w T.iT T.dT T.snT x m n j (j % 2) (1 - j % 2) q xclip a i =
+    RbV.Gen.SrcPwCustom.custom_for5 w T.iT T.dT T.snT T.sn0T x m n j (j % 2) (1 - j % 2) q xclip a i =
       GenSrcPwCustom.ofOpt (GenSrcPwCustom.stepJT T (GenSrcPwCustom.scOf w a) (GenSrcPwCustom.clOf a) m n j i (x.getD (i - 1) 0) q
           xclip (GenSrcPwCustom.rowPrev1 a (1 - j % 2) (i - 1)) (GenSrcPwCustom.rowPrev a (1 - j % 2) i tsU)
           (GenSrcPwCustom.rowCur a m j (j % 2) (i - 1) tsL)) >>= fun r' =>
@@ -662,7 +662,7 @@ theorem cell_update_source_eq_model (w : Nat → Nat → Int) (T : GenSrcPwCusto
     (hr : GenSrcPwCustom.rowCur a x.length j (j % 2) (i - 1) r.t.ts = r)
     (hp1 : GenSrcPwCustom.rowPrev1 a (1 - j % 2) (i - 1) = prev.getD (i - 1) default)
     (hp : GenSrcPwCustom.rowPrev a (1 - j % 2) i (prev.getD i default).t.ts = prev.getD i default) :
-    RbV.Gen.SrcPwCustom.custom_for5 w T.iT T.dT T.snT x x.length y.length j (j % 2) (1 - j % 2) (y.getD (j - 1) 0) xclip a i =
+    RbV.Gen.SrcPwCustom.custom_for5 w T.iT T.dT T.snT T.sn0T x x.length y.length j (j % 2) (1 - j % 2) (y.getD (j - 1) 0) xclip a i =
       GenSrcPwCustom.ofOpt (RbV.Model.PairwiseFill.stepJC (GenSrcPwCustom.scOf w a) (GenSrcPwCustom.clOf a) x y j prev xclip i r)
         >>= fun r' => Res.ok (GenSrcPwCustom.writeRow a x.length (j % 2) i j r') := by
   subst hT
@@ -689,7 +689,7 @@ def srcOp : AlignmentOperation → AOp
   | .Xclip n => .xclip n | .Yclip n => .yclip n
 def srcRun (w : Nat → Nat → Int) (go ge xp xs yp ys : Int) (x y : List Nat) : RbV.Model.PairwiseFill.Outcome :=
   match RbV.Gen.SrcPwCustom.custom w RbV.Gen.SrcPwCustom.custom_iTie RbV.Gen.SrcPwCustom.custom_dTie
-      RbV.Gen.SrcPwCustom.custom_snTie (srcAligner go ge xp xs yp ys) x y (2 * (x.length + y.length) + 16) with
+      RbV.Gen.SrcPwCustom.custom_snTie RbV.Gen.SrcPwCustom.custom_sn0Tie (srcAligner go ge xp xs yp ys) x y (2 * (x.length + y.length) + 16) with
   | .ok (al, _) => .done ⟨al.score, al.xstart, al.xend, al.ystart, al.yend, al.xlen, al.ylen, al.operations.map srcOp⟩
   | .panic => .overflow
   | .fuel => .noTermination
